@@ -349,7 +349,6 @@ def _join_requires(a):
         items = a.iterable
         return [lambda i: Implies(And(i >= 0, i < z3.Length(items)),
                                   And(Not(T.ItemS.is_item_other(items[i])),
-                                      Implies(T.ItemS.is_item_str(items[i]), PLAIN(T.ItemS.istr(items[i]))),
                                       z3.Length(T.CELLS(T.ItemS.istr(items[i]), T.NOATTS)) == z3.Length(T.ItemS.istr(items[i]))))]
     return True
 
